@@ -130,6 +130,9 @@ var c17JobPool = map[string]*jobSpec{
 	// a name that differs from "ja" in letter case only is another job
 	"JA": {Name: "JA", Path: "/upper"},
 	"jd": {Name: "jd", Rules: []relRule{{Action: "keep", Source: []string{"env"}, Regex: "prod|v2|"}}},
+	// a twin of "ja": equal settings under another name; groups that carry a discovered `job` label give targets with the
+	// same final labels, URL and hash under both names (a job being renamed, two jobs during a migration)
+	"jf": {Name: "jf"},
 	// a job whose CA file cannot be read: the scrape manager has no client for it, discovery and explorer track it
 	"je": {Name: "je", Scheme: "https", CAFile: "/nonexistent/kvass-verif/ca.crt"},
 }
@@ -412,7 +415,7 @@ func runC17(rec *vkit.Recorder, c *c17Case) []vkit.Violation {
 		snaps = append(snaps, snapshot{got: act, desc: descAll(act)})
 	}
 
-	lastUpdateHashes := map[uint64]string{} // hash -> job of the latest update
+	lastUpdateHashes := map[uint64]map[string]bool{} // hash -> jobs that delivered it in the latest update (twin jobs share hashes)
 	for i, op := range c.Ops {
 		if len(vs) > 0 {
 			break
@@ -497,11 +500,14 @@ func runC17(rec *vkit.Recorder, c *c17Case) []vkit.Violation {
 					exploreJobs[j] = true
 				}
 			}
-			lastUpdateHashes = map[uint64]string{}
+			lastUpdateHashes = map[uint64]map[string]bool{}
 			for j, ts := range td.ActiveTargets() {
 				if exploreJobs[j] {
 					for _, t := range ts {
-						lastUpdateHashes[t.ShardTarget.Hash] = j
+						if lastUpdateHashes[t.ShardTarget.Hash] == nil {
+							lastUpdateHashes[t.ShardTarget.Hash] = map[string]bool{}
+						}
+						lastUpdateHashes[t.ShardTarget.Hash][j] = true
 					}
 				}
 			}
@@ -552,10 +558,18 @@ func runC17(rec *vkit.Recorder, c *c17Case) []vkit.Violation {
 					delete(exploreJobs, j)
 				}
 			}
-			for h, j := range lastUpdateHashes {
-				if !nc[j] {
+			for h, js := range lastUpdateHashes {
+				var gone []string
+				for j := range js {
+					if !nc[j] {
+						gone = append(gone, j)
+						delete(js, j)
+					}
+				}
+				if len(js) == 0 {
+					// no job that is still configured delivered this target
 					if exp.Get(h) != nil {
-						add("C17/explorer-keeps-removed-job", "step %d: target %d of removed job %q is still known to the explorer", i, h, j)
+						add("C17/explorer-keeps-removed-job", "step %d: target %d of removed job(s) %v is still known to the explorer", i, h, gone)
 					}
 					delete(lastUpdateHashes, h)
 				}
@@ -563,9 +577,9 @@ func runC17(rec *vkit.Recorder, c *c17Case) []vkit.Violation {
 		}
 		verify(i, op.Kind)
 		// explorer tracks nothing but the targets of the latest update
-		for h, j := range lastUpdateHashes {
+		for h, js := range lastUpdateHashes {
 			if exp.Get(h) == nil {
-				add("C17/explorer-lost-target", "step %d (%s): target %d of job %q (latest update) is unknown to the explorer", i, op.Kind, h, j)
+				add("C17/explorer-lost-target", "step %d (%s): target %d of job(s) %v (latest update, still configured) is unknown to the explorer", i, op.Kind, h, js)
 				break
 			}
 		}
@@ -601,7 +615,7 @@ func runC17(rec *vkit.Recorder, c *c17Case) []vkit.Violation {
 
 func genC17(t *rapid.T) *c17Case {
 	// configured in an order that is not the sorted one (job lookups must not rely on order)
-	all := []string{"jc", "ja", "JA", "je", "jd", "jb"}
+	all := []string{"jc", "ja", "JA", "je", "jf", "jd", "jb"}
 	subset := func(label string) []string {
 		var out []string
 		for _, j := range rapid.Permutation(all).Draw(t, label+"-order") {
@@ -634,6 +648,7 @@ func genC17(t *rapid.T) *c17Case {
 	}
 	c.Via = []string{"", "file", "symlink", "samestat"}[pick(t, "via", 40, 15, 30, 15)]
 	cur := c.Initial
+	lastGroups := map[string][]grpSpec{}
 	n := rapid.IntRange(1, 12).Draw(t, "nOps")
 	for i := 0; i < n; i++ {
 		l := fmt.Sprintf("op%d", i)
@@ -655,6 +670,35 @@ func genC17(t *rapid.T) *c17Case {
 					continue
 				}
 				op.Update[j] = genGroups(t, l+"-"+j, 2, 3, true)
+			}
+			// targets that move from "ja" to its twin "jf" (or back): the groups one of them had in the previous update now
+			// come under the other name, with a discovered job label, so that labels, URLs and hashes are the same
+			if _, hasA := op.Update["ja"]; hasA {
+				if _, hasF := op.Update["jf"]; hasF && rapid.IntRange(0, 2).Draw(t, l+"-twinMove") == 0 {
+					from, to := "ja", "jf"
+					if rapid.Bool().Draw(t, l+"-twinBack") {
+						from, to = "jf", "ja"
+					}
+					src := lastGroups[from]
+					if len(src) == 0 {
+						src = genGroups(t, l+"-twin", 1, 2, false)
+					}
+					moved := make([]grpSpec, len(src))
+					for gi, g := range src {
+						moved[gi] = grpSpec{Source: g.Source, Targets: g.Targets, Labels: map[string]string{}}
+						for k, v := range g.Labels {
+							moved[gi].Labels[k] = v
+						}
+						moved[gi].Labels["job"] = "migrating"
+					}
+					op.Update[to], op.Update[from] = moved, []grpSpec{}
+					if rapid.Bool().Draw(t, l+"-twinBoth") {
+						op.Update[from] = moved // during the migration both names deliver the targets
+					}
+				}
+			}
+			for j, gs := range op.Update {
+				lastGroups[j] = gs
 			}
 			// the SD manager may still report a job that was just removed
 			if rapid.IntRange(0, 5).Draw(t, l+"-ghost") == 0 {
